@@ -18,6 +18,8 @@ type c01Case struct {
 	Bytes    string         `json:"bytes,omitempty"`     // hex, for the accepted-bytes stream
 	EditSeed uint64         `json:"edit_seed,omitempty"` // history stream: serialize, edit in memory (seeded), serialize again
 	Inproc   *c01InprocSpec `json:"inproc,omitempty"`    // driver stream, in-process (c01_inproc.go): Profile through driver.PProf
+	Profile2 string         `json:"profile2,omitempty"`  // file-history stream: the second (small) input
+	Hist     *c01HistSpec   `json:"hist,omitempty"`      // file-history stream (c01_hist.go): one target path written several times
 	CLI      *c01CLISpec    `json:"cli,omitempty"`       // driver stream (c01_cli.go): Profile through the real pprof binary
 }
 
@@ -388,7 +390,9 @@ func runC01(c *Ctx) {
 			c.Res.HarnessError = err.Error()
 			return
 		}
-		if cs.Profile != "" && cs.Inproc != nil {
+		if cs.Profile != "" && cs.Hist != nil {
+			c01HistEval(c, cs, c01HistExec(c, cs, 0))
+		} else if cs.Profile != "" && cs.Inproc != nil {
 			c01InprocEval(c, cs.Profile, *cs.Inproc, c01InprocExec(cs.Profile, *cs.Inproc))
 		} else if cs.Profile != "" && cs.CLI != nil {
 			c01CLIEval(c, cs.Profile, *cs.CLI, c01CLIExec(c, cs.Profile, *cs.CLI, 0))
@@ -445,4 +449,5 @@ func runC01(c *Ctx) {
 	// in-process streams above do not depend on it)
 	c01CLIStream(c, NewRng(c.Seed^0xC01C11), 240*c.Scale)
 	c01InprocStream(c, NewRng(c.Seed^0xC01D21), 180*c.Scale)
+	c01HistStream(c, NewRng(c.Seed^0xC01F11E), 72*c.Scale, 48*c.Scale)
 }
